@@ -461,3 +461,238 @@ def bundle_program(draw, early_virtual=True, steer=True, max_stmts=6):
             sc.bundles.append(name)
             btypes[name] = set(btypes[b])
     return Program(tuple(stmts))
+
+
+# ------------------------------------------------------------------------------------------
+# Memory cells (C03, C04, C05)
+# ------------------------------------------------------------------------------------------
+
+from .lang import Latch, MemDecl, MemRead, Write  # noqa: E402
+
+
+def _zero_preserving(draw, names, depth, thresholds):
+    """Tree-shaped enable expression over `names` (each used at most once) in which every node
+    evaluates to 0 when all inputs are 0 (so the all-zero circuit state is at rest)."""
+    if not names:
+        return None
+    if depth <= 0 or len(names) == 1 or draw(st.integers(0, 2)) == 0:
+        n = names.pop()
+        k = draw(st.integers(0, 6))
+        if k == 0:
+            return Ref(n)
+        if k == 1:
+            c = draw(st.integers(0, 40))
+            thresholds.setdefault(n, []).append(c)
+            return Bin(">", Ref(n), Num(c))
+        if k == 2:
+            c = draw(st.integers(1, 40))
+            thresholds.setdefault(n, []).append(c)
+            return Bin(">=", Ref(n), Num(c))
+        if k == 3:
+            c = draw(st.integers(1, 40)) * draw(st.sampled_from([1, -1]))
+            thresholds.setdefault(n, []).append(c)
+            return Bin("==", Ref(n), Num(c))
+        if k == 4:
+            thresholds.setdefault(n, []).append(0)
+            return Bin("!=", Ref(n), Num(0))
+        if k == 5:
+            c = draw(st.integers(-40, 0))
+            thresholds.setdefault(n, []).append(c)
+            return Bin("<", Ref(n), Num(c))
+        return Bin("*", Ref(n), Num(draw(st.integers(-3, 3))))
+    op = draw(st.sampled_from(["&&", "||", "*", "+"]))
+    l = _zero_preserving(draw, names, depth - 1, thresholds)
+    r = _zero_preserving(draw, names, depth - 1, thresholds)
+    if r is None:
+        return l
+    return Bin(op, l, r)
+
+
+@st.composite
+def gated_memory_program(draw, steer=True, early_virtual=True):
+    """1-3 standard cells written with when=, data/enable over disjoint inputs, 1-3 readers each."""
+    sc = Scope()
+    sc.steer = steer
+    pal = Palette(early_virtual)
+    types = list(draw(st.permutations(pal.types)))
+    stmts, thresholds, cells = [], {}, []
+    n_cells = draw(st.integers(1, 3))
+    g = ExprGen(sc, pal, allow_typeof=False)
+    for ci in range(n_cells):
+        # data inputs
+        d_names = []
+        for _ in range(draw(st.integers(1, 2))):
+            n = sc.fresh(draw, "d")
+            stmts.append(Decl("Signal", n, SigLit(types.pop(), Num(0))))
+            d_names.append(n)
+        e_names = []
+        for _ in range(draw(st.integers(1, 3))):
+            n = sc.fresh(draw, "e")
+            stmts.append(Decl("Signal", n, SigLit(types.pop(), Num(0))))
+            e_names.append(n)
+        m = f"m{ci + 1}"
+        mty = types.pop()
+        explicit = draw(st.integers(0, 3)) != 0
+        stmts.append(MemDecl(m, mty if explicit else None))
+        # data expression over d_names only
+        sc.signals = list(d_names)
+        sc.state = {}
+        # data: the property is about the cell, C01 covers expressions -> keep v simple
+        dk = draw(st.integers(0, 5))
+        if dk <= 1 or len(d_names) == 1 and dk == 3:
+            v = Ref(d_names[0])
+        elif dk == 2:
+            v = Bin(draw(st.sampled_from(["+", "-", "*", "/", "%", "XOR"])), Ref(d_names[0]), draw(num(small_int())))
+        elif dk == 3:
+            v = Bin(draw(st.sampled_from(["+", "-", "*"])), Ref(d_names[0]), Ref(d_names[1]))
+        elif dk == 4:
+            v = draw(num(int32()))  # constant data
+        else:
+            v = Bin(draw(st.sampled_from(CMPS)), Ref(d_names[0]), draw(num(small_int())))
+        if not isinstance(v, Num) or draw(st.booleans()):
+            v = Proj(v, mty)
+        pool = list(e_names)
+        c = _zero_preserving(draw, pool, 2, thresholds)
+        stmts.append(Write(m, v, c))
+        cells.append(m)
+        for _ in range(draw(st.integers(1, 3))):
+            r = sc.fresh(draw, "r")
+            k = draw(st.integers(0, 3))
+            if k == 0:
+                e = MemRead(m)
+            elif k == 1:
+                e = Bin(draw(st.sampled_from(["+", "*", "-", "XOR"])), MemRead(m), draw(num(small_int())))
+            elif k == 2:
+                e = Bin(draw(st.sampled_from(CMPS)), MemRead(m), draw(num(small_int())))
+            else:
+                e = Proj(MemRead(m), draw(st.sampled_from(pal.types)))
+            stmts.append(Decl("Signal", r, e))
+    return Program(tuple(stmts)), thresholds
+
+
+@st.composite
+def history(draw, names, thresholds, n_steps, enable_prefix="e"):
+    steps = []
+    for _ in range(n_steps):
+        n = draw(st.sampled_from(sorted(names)))
+        ths = thresholds.get(n)
+        if ths and draw(st.integers(0, 3)) != 0:
+            t = draw(st.sampled_from(ths))
+            v = t + draw(st.sampled_from([-1, 0, 1, 1, 2]))
+        elif n.startswith(enable_prefix):
+            v = draw(st.sampled_from([0, 0, 1, 1, 2, 5, -1, 40, 41]))
+        else:
+            v = draw(int32())
+        steps.append((n, v))
+    return steps
+
+
+@st.composite
+def feedback_program(draw, early_virtual=True):
+    """m.write(f(m.read())) with f a chain of 1..6 arithmetic steps over the cell, constants and
+    held inputs; as named intermediates or one nested expression; 1-3 readers."""
+    pal = Palette(early_virtual)
+    types = list(draw(st.permutations(pal.types)))
+    stmts = []
+    mty = types.pop()
+    explicit = True
+    n_held = draw(st.integers(0, 2))
+    held = []
+    for i in range(n_held):
+        n = f"h{i + 1}"
+        stmts.append(Decl("Signal", n, SigLit(types.pop(), draw(num(st.integers(1, 9))))))
+        held.append(n)
+    stmts.append(MemDecl("m", mty if explicit else None))
+    k = draw(st.integers(1, 6))
+    named = draw(st.booleans())
+    cur = MemRead("m")
+    free_held = list(held)
+    for i in range(k):
+        op = draw(st.sampled_from(["+", "+", "*", "%", "-", "XOR", "AND", "OR", "/", "<<", ">>"]))
+        if free_held and draw(st.integers(0, 3)) == 0 and op in ("+", "-", "*", "XOR"):
+            rhs = Ref(free_held.pop())
+        elif op == "%":
+            rhs = Num(draw(st.sampled_from([7, 10, 17, 100, 256, 1000])))
+        elif op in ("<<", ">>"):
+            rhs = Num(draw(st.integers(1, 3)))
+        elif op == "/":
+            rhs = Num(draw(st.sampled_from([2, 3, -2])))
+        elif op == "*":
+            rhs = Num(draw(st.sampled_from([2, 3, 5, -1, 7])))
+        else:
+            rhs = Num(draw(st.integers(1, 13)))
+        nxt = Bin(op, cur, rhs)
+        if named and i < k - 1:
+            n = f"s{i + 1}"
+            stmts.append(Decl("Signal", n, nxt))
+            cur = Ref(n)
+        else:
+            cur = nxt
+    if draw(st.integers(0, 4)) == 0:  # final step a decider: the two-gate cell stays
+        stmts.append(Decl("Signal", "sx", cur))
+        cur = Cond(Bin("<", Ref("sx"), Num(draw(st.integers(50, 5000)))), Ref("sx"))
+    stmts.append(Write("m", cur, None))
+    stmts.append(Decl("Signal", "r0", MemRead("m")))
+    for i in range(draw(st.integers(0, 2))):
+        e = Bin(draw(st.sampled_from(["+", "*", "XOR", ">"])), MemRead("m"), draw(num(small_int())))
+        stmts.append(Decl("Signal", f"r{i + 1}", e))
+    return Program(tuple(stmts))
+
+
+@st.composite
+def latch_program(draw, early_virtual=True):
+    pal = Palette(early_virtual)
+    types = list(draw(st.permutations(pal.types)))
+    stmts, thresholds = [], {}
+    mty = types.pop()
+    shape = draw(st.sampled_from(["signals", "shared", "different", "mixed"]))
+    set_first = draw(st.booleans())
+
+    def cmp_on(name):
+        c = draw(st.integers(-20, 100))
+        thresholds.setdefault(name, []).append(c)
+        return Bin(draw(st.sampled_from(CMPS)), Ref(name), Num(c))
+
+    boolean_inputs = []
+    if shape == "signals":
+        stmts.append(Decl("Signal", "s", SigLit(types.pop(), Num(0))))
+        stmts.append(Decl("Signal", "t", SigLit(types.pop(), Num(0))))
+        set_e, reset_e = Ref("s"), Ref("t")
+        boolean_inputs = ["s", "t"]
+    elif shape == "shared":
+        xty = mty if draw(st.integers(0, 3)) == 0 else types.pop()
+        stmts.append(Decl("Signal", "x", SigLit(xty, Num(0))))
+        set_e, reset_e = cmp_on("x"), cmp_on("x")
+    elif shape == "different":
+        stmts.append(Decl("Signal", "x", SigLit(types.pop(), Num(0))))
+        stmts.append(Decl("Signal", "y", SigLit(types.pop(), Num(0))))
+        set_e, reset_e = cmp_on("x"), cmp_on("y")
+    else:
+        stmts.append(Decl("Signal", "s", SigLit(types.pop(), Num(0))))
+        stmts.append(Decl("Signal", "y", SigLit(types.pop(), Num(0))))
+        set_e, reset_e = Ref("s"), cmp_on("y")
+        boolean_inputs = ["s"]
+        if draw(st.booleans()):
+            set_e, reset_e = reset_e, set_e
+    named = draw(st.booleans())
+    if named and not isinstance(set_e, Ref):
+        stmts.append(Decl("Signal", "set_c", set_e))
+        set_e = Ref("set_c")
+    if named and not isinstance(reset_e, Ref):
+        stmts.append(Decl("Signal", "reset_c", reset_e))
+        reset_e = Ref("reset_c")
+    vk = draw(st.integers(0, 4))
+    if vk <= 1:
+        v = Num(1)
+    elif vk == 2:
+        v = Num(draw(st.sampled_from([2, 5, 100, -3, 1000])))
+    else:
+        same = draw(st.booleans())
+        stmts.append(Decl("Signal", "val", SigLit(mty if same else types.pop(), draw(num(st.integers(2, 50))))))
+        v = Ref("val") if same else Proj(Ref("val"), mty)
+    stmts.append(MemDecl("m", mty))
+    stmts.append(Latch("m", v, set_e, reset_e, set_first))
+    stmts.append(Decl("Signal", "r0", MemRead("m")))
+    if draw(st.booleans()):
+        stmts.append(Decl("Signal", "r1", Bin(">", MemRead("m"), Num(0))))
+    return Program(tuple(stmts)), thresholds, boolean_inputs
